@@ -9,6 +9,7 @@ CONSTANTS
   DropWhenFull = TRUE
   Requeue = FALSE
   AtomicSwap = FALSE
+  EarlyExit = FALSE
   CtxInOpen = TRUE
 INVARIANTS TypeOK P_X08_LossOnlyOnFailure
 CHECK_DEADLOCK FALSE
